@@ -1081,6 +1081,17 @@ def sch_guard(ctx: Ctx) -> RuleResult:
         group = sorted((s for s in sites.values() if _licence(m, s)[0] == lic), key=lambda s: getattr(s["event"].node, "lineno", 0))
         if len(group) < 2:
             continue
+        # the awaited wait comes first: while the scheduler coroutine sits in the blocking wait on the thread futures the event loop is
+        # not served - taken first, it keeps async-thread nodes (and every other coroutine of the loop) from being observed at all
+        kinds_ = [s_["event"].data["kind"] for s_ in group]
+        if "async" in kinds_ and "conc" in kinds_:
+            first_async = kinds_.index("async") < kinds_.index("conc")
+            r.ob(first_async, {"licence": lic, "order of the waits": kinds_})
+            if not first_async:
+                r.violate(f"{m.fn.short}: under the {lic} licence the blocking wait on the thread futures precedes the awaited wait",
+                          _where(m, group[0]["event"].node), "the other licences await the async-thread futures first; here the event loop is "
+                          "blocked before it was given the hand: an async-thread node that needs a sibling coroutine to progress never "
+                          "finishes while a thread node is in flight", kinds_)
         g0 = group[0]["event"].guards
         for s in group[1:]:
             e = s["event"]
